@@ -38,16 +38,17 @@ fn c06_scn(name: &str, full: bool, preconfigured: bool) -> ChatScn {
     }
     let mut s = ChatScn::new(name, cfg, vec![part(0, "vic", "vicky", "vu"), part(1, "alice", "alicia", "au"), part(2, "bob", "bobby", "bu")], 1);
     s.prelude = vec![(1, "OPER op oppw".into()), (1, "JOIN #x".into())];
-    let mut v: Vec<&'static str> = vec!["JOIN #x", "JOIN #y", "MODE {me} +i", "MODE {me} +w", "AWAY :t", "INVITE bob #y"];
+    // the victim also leaves channels before its session ends (what it left must stay left)
+    let mut v: Vec<&'static str> = vec!["JOIN #x", "JOIN #y", "PART #y", "CAP END", "MODE {me} +i", "MODE {me} +w", "AWAY :t", "INVITE bob #y"];
     if full {
-        v.extend(["OPER op oppw", "JOIN #z", "NICK {alt}"]);
+        v.extend(["OPER op oppw", "JOIN #z", "NICK {alt}", "PART #x", "JOIN #x,#y", "PART #x,#y", "CAP LS 302", "CAP REQ :multi-prefix", "PASS x", "USER again 0 * :again"]);
     }
     for t in v {
         s.alphabet_for.push((0, t));
     }
     let mut a: Vec<&'static str> = vec!["MODE #x +o vic", "MODE #x +v vic", "INVITE vic #z", "KILL vic :bye"];
     if full {
-        a.extend(["MODE #x +h vic", "PRIVMSG vic :queued", "KILL bob :bye"]);
+        a.extend(["MODE #x +h vic", "PRIVMSG vic :queued", "KILL bob :bye", "KICK #x vic"]);
     }
     for t in a {
         s.alphabet_for.push((1, t));
@@ -61,6 +62,8 @@ fn c06_scn(name: &str, full: bool, preconfigured: bool) -> ChatScn {
         if v.life[0] == Life::Live {
             acts.push(Act::Eof(0));
             acts.push(Act::EofPartial(0, "PIN".into()));
+            // mid-line with a fragment that would be visible if it were executed
+            acts.push(Act::EofPartial(0, "PRIVMSG alice :half a li".into()));
             acts.push(Act::Raw(0, b"PING \xff\xfe\r\n".to_vec()));
             if full {
                 // a line of the victim is in flight while the operator kills it
@@ -91,6 +94,7 @@ fn c06_scn(name: &str, full: bool, preconfigured: bool) -> ChatScn {
         }
     }));
     s.goals = vec!["ended-registered", "rereg", "probed-survivor"];
+    s.orphan_check = true;
     s
 }
 
@@ -267,9 +271,9 @@ fn c11_plan_parts(quick: bool) -> Vec<Part> {
 
 fn c19_scn(name: &str, full: bool) -> ChatScn {
     let mut s = ChatScn::new(name, oper_cfg(None), vec![part(0, "alice", "alicia", "au"), part(1, "bob", "bobby", "bu"), part(2, "carol", "caro", "cu")], 1);
-    let mut a: Vec<&'static str> = vec!["MODE {me} +i", "MODE {me} -i", "OPER op oppw", "MODE {me} -o", "AWAY :t", "NICK {alt}", "JOIN #x", "PART #x", "QUIT"];
+    let mut a: Vec<&'static str> = vec!["MODE {me} +i", "MODE {me} -i", "OPER op oppw", "MODE {me} -o", "MODE {me} -oO", "AWAY :t", "NICK {alt}", "JOIN #x", "PART #x", "QUIT"];
     if full {
-        a.extend(["MODE {me} -O", "MODE {me} +o", "MODE {me} +O", "AWAY", "KILL {peer} :x", "JOIN #y"]);
+        a.extend(["MODE {me} -O", "MODE {me} +o", "MODE {me} +O", "MODE {me} -Oo", "MODE {me} -o-O+i", "AWAY", "KILL {peer} :x", "JOIN #y"]);
     }
     for slot in 0..3 {
         for t in &a {
@@ -299,6 +303,7 @@ fn c19_scn(name: &str, full: bool) -> ChatScn {
     }));
     s.focus = Focus { cats: vec![Cat::UserModes, Cat::UserExistence, Cat::MaxUsers, Cat::Away, Cat::ChanExistence, Cat::Membership], relays: false, relay_verbs: None, actor: false, actor_codes: None, closes: false };
     s.invariants = vec!["invisible-count", "operators-count", "max-users"];
+    s.orphan_check = true;
     for slot in 0..3 {
         s.probes_for.push((slot, "LUSERS"));
     }
@@ -425,6 +430,21 @@ impl Slots {
     }
 }
 
+/// C06 for sessions that end before, during or after a contended registration
+/// (see ghost.rs): the end of a connection that never registered changes nothing,
+/// the end of the registered one erases exactly that user.
+fn c06_ghost(full: bool) -> ChatScn {
+    super::ghost::ghost_scn("c06-ghost", crate::check::ALL_CATS, full)
+}
+
+/// C19 statistics and presence around a contended registration.
+fn c19_ghost(full: bool) -> ChatScn {
+    let mut s = super::ghost::ghost_scn("c19-ghost", &[Cat::UserModes, Cat::UserExistence, Cat::MaxUsers, Cat::ChanExistence, Cat::Membership], full);
+    s.probes_for = vec![(0, "LUSERS"), (0, "ISON alice bob bobby nosuch"), (0, "USERHOST alice bob bobby")];
+    s.probe_focus = Some(Focus { cats: vec![], relays: false, relay_verbs: None, actor: true, actor_codes: Some(vec!["251", "252", "254", "255", "265", "266", "303", "302"]), closes: false });
+    s
+}
+
 pub fn plan(property: &str, quick: bool) -> Plan {
     let t = |q: f64, th: f64| if quick { q } else { th };
     match property {
@@ -436,6 +456,7 @@ pub fn plan(property: &str, quick: bool) -> Plan {
                 Part::Bfs(Box::new(c06_scn("c06-endings", !quick, false)), lim(if quick { 6 } else { 7 }, 3_000_000, t(30.0, 900.0))),
                 Part::Bfs(Box::new(c06_scn("c06-endings-preconfigured", false, true)), lim(if quick { 5 } else { 7 }, 3_000_000, t(15.0, 600.0))),
                 Part::Bfs(Box::new(c06_timeout_scn("c06-timeout")), lim(if quick { 6 } else { 8 }, 1_000_000, t(10.0, 300.0))),
+                Part::Bfs(Box::new(c06_ghost(!quick)), lim(if quick { 6 } else { 8 }, 2_000_000, t(20.0, 600.0))),
             ],
         },
         "C11" => Plan {
@@ -450,6 +471,7 @@ pub fn plan(property: &str, quick: bool) -> Plan {
             assumptions: vec![],
             parts: {
                 let mut p = vec![Part::Bfs(Box::new(c19_scn("c19-stats", !quick)), lim(if quick { 5 } else { 6 }, 3_000_000, t(30.0, 900.0)))];
+                p.push(Part::Bfs(Box::new(c19_ghost(!quick)), lim(if quick { 6 } else { 8 }, 2_000_000, t(20.0, 600.0))));
                 for max in [1usize, 2, 3] {
                     p.push(Part::Bfs(Box::new(Slots { max, with_password: false }), lim(if quick { 7 } else { 10 }, 2_000_000, t(5.0, 300.0))));
                 }
